@@ -6,6 +6,8 @@ From Coq Require Import List Bool.
 From EvyV Require Import Base Ast Sem Static StaticTypes.
 From EvyV Require TypesSyntax TypesSpec Types TypesProofs TypesWhole.
 Import ListNotations.
+Module S := TypesSyntax.
+Module Sp := TypesSpec.
 Module T := Types.
 Module TP := TypesProofs.
 Module TW := TypesWhole.
